@@ -48,7 +48,7 @@ def run(ctx, kspec):
         strmax = b.get("strmax", k.get("strmax", 6) + (2 if ctx.tier == "thorough" else 0))
         timeout_ms = 60000 if ctx.tier == "quick" else 300000
         cmd = [os.path.join(VERIF, "bin/gosym"), "-dir", REPO, "-pkg", ".", "-overlay", ov, "-run", k["harness"], "-labels", k["labels"],
-               "-strings", "theory", "-strmax", str(strmax), "-splitmax", str(b.get("splitmax", k.get("splitmax", 4))), "-init",
+               "-strings", "theory", "-maporder", "-strmax", str(strmax), "-splitmax", str(b.get("splitmax", k.get("splitmax", 4))), "-init",
                "-out", res_path, "-workers", str(k.get("workers", 8)), "-timeout", str(timeout_ms), "-unwind", str(k.get("unwind", 6)),
                "-witnesses", "3" if ctx.tier == "quick" else "10", "-seed", str(ctx.seed)]
         # z3 5.1.0 decides the bit-vector string kernels in seconds where 4.8.12 times out (measured)
@@ -74,14 +74,14 @@ def run(ctx, kspec):
 _ktest = {}
 
 
-def replay(ctx, ov, harness, model):
+def replay(ctx, ov, harness, model, repeat=1, target=""):
     if ov not in _ktest:
         binp = os.path.join(ctx.work, "ktest.bin")
         sh(["go", "test", "-c", "-vet=off", "-overlay", ov, "-o", binp, "."], cwd=REPO, timeout=1200)
         _ktest[ov] = binp
     vec = os.path.join(ctx.work, "kvec-%d.json" % time.time_ns())
     json.dump(model or [], open(vec, "w"))
-    env = dict(GOENV, VRT_HARNESS=harness, VRT_VECTOR=vec)
+    env = dict(GOENV, VRT_HARNESS=harness, VRT_VECTOR=vec, VRT_REPEAT=str(repeat), VRT_TARGET=target)
     p = sh([_ktest[ov], "-test.run", "^TestVerifReplay$", "-test.v"], cwd=REPO, env=env, check=False, timeout=300)
     for line in p.stdout.decode().splitlines():
         if line.startswith("VRT-REPORT "):
@@ -165,6 +165,10 @@ def judge(ctx, kspec, res):
                 continue
             if v == "sat":
                 rep = replay(ctx, res["overlay"], h["harness"], o.get("model"))
+                if not confirms(o, rep) and h.get("schedule_vars"):
+                    # the counterexample may need a particular map iteration order: Go re-randomises it on
+                    # every range statement, so the same draws are replayed repeatedly in one process
+                    rep = replay(ctx, res["overlay"], h["harness"], o.get("model"), repeat=5000, target=o["label"] if o["kind"] != "panic" else "")
                 o["native"] = rep
                 if confirms(o, rep) or (o["kind"] == "outside-excuse" and o["label"] in (rep.get("failed") or [])):
                     ctx.violations.append((o["label"], h["harness"], save_bundle(ctx, res, h["harness"], o, rep)))
@@ -182,6 +186,8 @@ def judge(ctx, kspec, res):
 def replay_bundle(ctx, info):
     ov, _ = overlay(ctx)
     rep = replay(ctx, ov, info["harness"], info.get("model"))
+    if not (confirms({"kind": info["kind"], "label": info["label"]}, rep) or info["label"] in (rep.get("failed") or [])):
+        rep = replay(ctx, ov, info["harness"], info.get("model"), repeat=5000, target=o["label"] if o["kind"] != "panic" else "")
     print(json.dumps(rep))
     if confirms({"kind": info["kind"], "label": info["label"]}, rep) or info["label"] in (rep.get("failed") or []):
         print("VIOLATION property=%s replay=%s" % (ctx.prop, info.get("path", "")))
